@@ -5,7 +5,7 @@ use crate::core::{Acc, Ctx};
 use crate::encspace::{enumerate, EncCase};
 use serde_json::{json, Value};
 
-pub const RULE: &str = "every case of the C01 space (a) all mono sequences over Σ(bps) up to length L for bps 1..32, (b) all stereo PCM-frame sequences over Σ5×Σ5 × mid-side × correlation mode, (c) 3..8 channels over {MIN,0,MAX}, (d) 16-sample carrier + every tail over Σ × max-LPC, (e) every option vector with ≤d deviations × small inputs, (f) sample-rate codings, (g) writer × reader front-ends, (h) signal-family grid (incl. period-32/period-12 signals that drive the encoder to LPC orders up to 32, and 12/20-bit depths) on block sizes 16/192/576/4096 (thorough + 17, 100, 1000, 1152, 65535), 1/2 channels everywhere and 3/8 channels on the small blocks, (j) channel-heterogeneous inputs: every assignment of 8 per-channel traits (noise, 4 / 1 wasted bits, constant, silence, ramp, shared noise ± offset, shared noise) to 2 channels × 4 correlation modes and of 4 traits to 3 channels, depths 8/16/24, blocks 16/192; a case is one (writer, options, signal parameters, PCM) tuple; distinct outcomes = distinct (set, result class, frame-shape) keys";
+pub const RULE: &str = "every case of the C01 space (a) all mono sequences over Σ(bps) up to length L for bps 1..32, (b) all stereo PCM-frame sequences over Σ5×Σ5 × mid-side × correlation mode, (c) 3..8 channels over {MIN,0,MAX}, (d) 16-sample carrier + every tail over Σ × max-LPC, (e) every option vector with ≤d deviations × small inputs, (f) sample-rate codings, (g) writer × reader front-ends, (h) signal-family grid (incl. period-32/period-12 signals that drive the encoder to LPC orders up to 32, and 12/20-bit depths) on block sizes 16/192/576/4096 (thorough + 17, 100, 1000, 1152, 65535), 1/2 channels everywhere and 3/8 channels on the small blocks, (j) channel-heterogeneous inputs: every assignment of 8 per-channel traits (noise, 4 / 1 wasted bits, constant, silence, ramp, shared noise ± offset, shared noise) to 2 channels × 4 correlation modes and of 4 traits to 3 channels, depths 8/16/24, blocks 16/192, (k) the presets Options::fast() and Options::best() taken whole × signal families × lengths around one and two blocks × all four writers, (l) steep low-pass multi-sine signals that drive the LPC quantiser to shift 0 and into its negative-shift branch; a case is one (writer, options, signal parameters, PCM) tuple; distinct outcomes = distinct (set, result class, frame-shape) keys";
 pub const ASSUMPTIONS: &[&str] = &["sample values outside Σ(bps) and the signal-family grid are not explored", "the crate's own decoder is the oracle here; C02 judges the same files with the independent decoder"];
 pub fn bounds(quick: bool) -> Value {
     if quick {
@@ -46,7 +46,7 @@ pub fn check_case(c: &EncCase, readers: &[ReaderKind]) -> (String, Option<(Strin
 
 pub fn run(ctx: &Ctx, acc: &mut Acc) {
     let only = [ReaderKind::SampleFill];
-    enumerate(ctx, "abcdefghj", &mut |c: &EncCase| {
+    enumerate(ctx, "abcdefghjkl", &mut |c: &EncCase| {
         let readers: &[ReaderKind] = if c.set == "g" { &READERS } else { &only };
         let (out, v) = check_case(c, readers);
         acc.states += 1;
